@@ -216,9 +216,20 @@ class BreakpointHandler:
         @return the message box body for the debug-action query, for the current ip.
         """
         address = self.get_address_str(ip)
-        flip = self.get_address_str(mem.get_word(ip))
-        jump = self.get_address_str(mem.get_word(ip + mem.memory_width))
+        flip = self._get_word_address_str(ip, mem)
+        jump = self._get_word_address_str(ip + mem.memory_width, mem)
         return f'Address {address}.\n\n{op_counter} ops executed.\n\nflip {flip}.\n\njump {jump}.'
+
+    def _get_word_address_str(self, bit_address: int, mem: fjm_reader.Reader) -> str:
+        """
+        @return the pretty address-string of the word at bit_address, for the pause message only.
+        Displaying a pause must never end the run: if the word can't be read (it is outside any
+        segment), say so, and let the op itself hit the memory error when it is executed.
+        """
+        try:
+            return self.get_address_str(mem.get_word(bit_address))
+        except FlipJumpException:
+            return '<unreadable memory>'
 
     def handle_read_memory(self, target: str, mem: fjm_reader.Reader) -> None:
         """
